@@ -221,13 +221,15 @@ def tail(ctx):
         ok_al = any(ls.lx[k] is cand[0] for k in ls.lx) and any(ls.lx[k] is cand[1] for k in ls.lx)      # (initial values are dead: the first doubling always runs)
         ctx.check('C04.step.alpha_src', A, 'alpha-source', ok_al, expected='alpha, n_alpha are the doubling loop\'s variables after the loop', found='%s / %s' % (show(cand[0]), show(cand[1])), sp=sp,
                   why='statistic of the last doubling')
-    guard = T.cmp('le', m1, nd)
+    guard = T.icmp('le', m1, nd)
     eps_w = T.app('exp', T.sub(mu, T.mul(T.div(T.app('sqrt', m1), gam), hb)))
     eta2 = T.app('pow', m1, T.neg(kap))
     ebar_w = T.app('exp', T.add(T.mul(T.sub(T.ONE, eta2), T.app('ln', eb0)), T.mul(eta2, T.app('ln', eps_w))))
     fe = ev.final_term('self.epsilon')
     feb = ev.final_term('self.epsilon_bar')
     gfound = fe[1] if fe[0] == 'ite' else None
+    if gfound is not None and T.lnot(gfound) is guard:
+        gfound = T.lnot(gfound)        # (ite normal forms keep the un-negated test and swap the arms)
     ctx.eq('C04.step.guard', A, 'guard', gfound if gfound is not None else fe, guard, sp=sp, why='adaptation runs exactly while m <= n_discard (m counted after the increment)')
     ctx.eq('C04.step.eps', A, 'epsilon', fe, T.ite(guard, eps_w, eb0), sp=sp,
            why='warm-up: eps = exp(mu - sqrt(m)/gamma h_bar); afterwards eps := eps_bar (the averaged iterate)')
